@@ -1,9 +1,10 @@
 package main
 
 import (
-	"bufio"
+	"bytes"
 	"encoding/json"
 	"fmt"
+	"io"
 	"os"
 	"os/exec"
 	"path/filepath"
@@ -11,6 +12,7 @@ import (
 	"runtime"
 	"strings"
 	"sync"
+	"time"
 
 	"verifharness/hx"
 )
@@ -33,6 +35,8 @@ type wire struct {
 	Fails   []hx.Finding   `json:"fails,omitempty"`
 	Counts  map[string]int `json:"counts,omitempty"`
 	Nontriv string         `json:"nontriv,omitempty"`
+	Hang    bool           `json:"hang,omitempty"`    // (Idx -1) a watchdog ran out its full bound: the hang is confirmed
+	Skipped string         `json:"skipped,omitempty"` // the case was not started: why
 }
 
 func toWire(i int, r *result) wire {
@@ -50,7 +54,8 @@ func fromWire(w wire) *result {
 }
 
 // childMain executes the descriptors of a chunk file (a few at a time in parallel, each has its own pool and log) and
-// appends one record when a descriptor begins and one when it is done.
+// appends one record when a descriptor begins and one when it is done (or skipped, see hang.go).  A case that exceeds
+// its time limit as a whole is given up (its goroutine is leaked).
 func childMain(chunkFile, resFile string) {
 	var jobs []job
 	b, err := os.ReadFile(chunkFile)
@@ -76,26 +81,69 @@ func childMain(chunkFile, resFile string) {
 		out.Write(append(line, '\n'))
 		out.Sync()
 	}
+	hangs.load()
+	hangs.emit = emit
 	const par = 4
-	for i := 0; i < len(jobs); i += par {
-		end := min(i+par, len(jobs))
-		var wg sync.WaitGroup
-		for k := i; k < end; k++ {
-			wg.Add(1)
-			go func() {
-				defer wg.Done()
-				emit(wire{Idx: k, Begin: true})
-				res := execDescriptor(jobs[k].Desc)
-				if res == nil {
-					res = newResult()
-					res.lines = append(res.lines, [2]string{jobs[k].Desc, "bad-descriptor"})
-				}
-				emit(toWire(k, res))
-			}()
+	sem := make(chan struct{}, par)
+	var wg sync.WaitGroup
+	for k := range jobs {
+		sem <- struct{}{}
+		if why := hangs.skip(jobs[k].Desc); why != "" {
+			emit(wire{Idx: k, Skipped: why})
+			<-sem
+
+			continue
 		}
-		wg.Wait()
+		wg.Add(1)
+		go func() {
+			defer wg.Done()
+			defer func() { <-sem }()
+			emit(wire{Idx: k, Begin: true})
+			res := guardedExec(jobs[k].Desc)
+			hangs.note(jobs[k].Desc, res.fails)
+			emit(toWire(k, res))
+		}()
 	}
+	wg.Wait()
 	out.Close()
+}
+
+// guardedExec executes a descriptor, but gives it up when it takes longer than the limit for a whole case: some
+// blocking call that no watchdog guards does not return.
+func guardedExec(desc string) *result {
+	ch := make(chan *result, 1)
+	t0 := time.Now()
+	go func() {
+		res := execDescriptor(desc)
+		if res == nil {
+			res = newResult()
+			res.lines = append(res.lines, [2]string{desc, "bad-descriptor"})
+		}
+		ch <- res
+	}()
+	tick := time.NewTicker(200 * time.Millisecond)
+	defer tick.Stop()
+	for {
+		select {
+		case res := <-ch:
+			return res
+		case <-tick.C:
+			if lim := hangs.caseLimit(); time.Since(t0) > lim {
+				hangs.expired(bound)
+				res := newResult()
+				ans := "ok"
+				if strings.HasPrefix(desc, "sched ") {
+					ans = "stuck"
+				}
+				res.lines = append(res.lines, [2]string{desc, ans})
+				res.fail("termination", fmt.Sprintf("the case '%s' did not end within %s: a call into the code under test that no single watchdog guards does not return", desc, lim),
+					map[string]string{"api": "workerpool", "effect": "case-exceeded-its-time-limit", "kind": descKind(desc)})
+				res.count("case-given-up")
+
+				return res
+			}
+		}
+	}
 }
 
 var hiveFrame = regexp.MustCompile(`github\.com/iotaledger/hive\.go/[^\s(]+(\([^)]*\))?[.\w]*`)
@@ -145,9 +193,37 @@ func crashed(j job, stderr string, alone bool) *result {
 	return r
 }
 
-// runChild runs one child over jobs; it returns the results it delivered, the indices that had begun but not finished
-// when it died, and its stderr (empty if it exited normally).
-func runChild(dir string, seq int, jobs []job) (done map[int]*result, open []int, stderr string) {
+// childOutcome is what one child process delivered.
+type childOutcome struct {
+	done    map[int]*result
+	skipped map[int]string
+	open    []int  // begun, neither finished nor skipped when the child ended
+	stderr  string // empty if it exited normally or was stopped by the parent
+	stopped bool   // the parent killed it (hang budget used up)
+}
+
+// parentCtl is the parent's view of the hang state (see hang.go).
+type parentCtl struct {
+	env       hangEnv
+	firstHang time.Time
+	grace     time.Duration
+}
+
+func (pc *parentCtl) confirm() {
+	if !pc.env.Confirmed {
+		pc.env.Confirmed = true
+		pc.firstHang = time.Now()
+		pc.env.StopAtMs = pc.firstHang.Add(pc.grace).UnixMilli()
+		fmt.Fprintf(os.Stderr, "hang confirmed: later waits are shortened to %s, cases that keep hanging the same way are skipped, no new case after %s\n", afterHangBound, pc.grace)
+	}
+}
+
+func (pc *parentCtl) exhausted() bool {
+	return pc.env.Confirmed && time.Now().UnixMilli() > pc.env.StopAtMs
+}
+
+// runChild runs one child over jobs and follows its result stream while it runs.
+func runChild(dir string, seq int, jobs []job, pc *parentCtl, progress func(oc *childOutcome) (stop bool)) childOutcome {
 	chunkFile := filepath.Join(dir, fmt.Sprintf("chunk%d.json", seq))
 	resFile := filepath.Join(dir, fmt.Sprintf("res%d.jsonl", seq))
 	b, _ := json.Marshal(jobs)
@@ -160,28 +236,84 @@ func runChild(dir string, seq int, jobs []job) (done map[int]*result, open []int
 		panic(err)
 	}
 	cmd := exec.Command(self, "--child", chunkFile, resFile)
+	envJSON, _ := json.Marshal(pc.env)
+	cmd.Env = append(os.Environ(), "C16_HANGCTL="+string(envJSON))
 	var errBuf strings.Builder
 	cmd.Stderr = &errBuf
 	cmd.Stdout = os.Stdout
-	runErr := cmd.Run()
-	done = map[int]*result{}
+	oc := childOutcome{done: map[int]*result{}, skipped: map[int]string{}}
 	begun := map[int]bool{}
-	if f, err := os.Open(resFile); err == nil {
-		sc := bufio.NewScanner(f)
-		sc.Buffer(make([]byte, 1<<20), 1<<28)
-		for sc.Scan() {
+	if err := cmd.Start(); err != nil {
+		oc.stderr = "cannot start child: " + err.Error()
+
+		return oc
+	}
+	exited := make(chan error, 1)
+	go func() { exited <- cmd.Wait() }()
+	var off int64
+	var rest []byte
+	poll := func() {
+		f, err := os.Open(resFile)
+		if err != nil {
+			return
+		}
+		defer f.Close()
+		if _, err := f.Seek(off, 0); err != nil {
+			return
+		}
+		data, _ := io.ReadAll(f)
+		off += int64(len(data))
+		rest = append(rest, data...)
+		for {
+			i := bytes.IndexByte(rest, '\n')
+			if i < 0 {
+				break
+			}
+			line := rest[:i]
+			rest = rest[i+1:]
 			var w wire
-			if json.Unmarshal(sc.Bytes(), &w) != nil {
+			if json.Unmarshal(line, &w) != nil {
 				continue
 			}
-			if w.Begin {
+			switch {
+			case w.Hang:
+				pc.confirm()
+			case w.Begin:
 				begun[w.Idx] = true
-			} else {
-				done[w.Idx] = fromWire(w)
+			case w.Skipped != "":
+				oc.skipped[w.Idx] = w.Skipped
+			default:
+				res := fromWire(w)
+				oc.done[w.Idx] = res
+				if w.Idx >= 0 && w.Idx < len(jobs) {
+					for _, k := range hangKeys(jobs[w.Idx].Desc, res.fails) {
+						pc.confirm()
+						pc.env.Kinds[k]++
+					}
+				}
 			}
 		}
-		f.Close()
 	}
+	var runErr error
+	tick := time.NewTicker(50 * time.Millisecond)
+	defer tick.Stop()
+	running := true
+	for running {
+		select {
+		case runErr = <-exited:
+			running = false
+		case <-tick.C:
+			poll()
+			// the budget is used up: the child starts nothing new by itself; what is still running gets 20 s
+			if (progress != nil && progress(&oc)) || (pc.env.Confirmed && time.Now().UnixMilli() > pc.env.StopAtMs+20000) {
+				cmd.Process.Kill()
+				runErr = <-exited
+				oc.stopped = true
+				running = false
+			}
+		}
+	}
+	poll()
 	os.Remove(chunkFile)
 	os.Remove(resFile)
 	// forward what the child said that is not a crash dump
@@ -190,77 +322,136 @@ func runChild(dir string, seq int, jobs []job) (done map[int]*result, open []int
 			fmt.Fprintln(os.Stderr, l)
 		}
 	}
-	if runErr == nil {
-		return done, nil, ""
-	}
 	for i := range jobs {
-		if begun[i] && done[i] == nil {
-			open = append(open, i)
+		if begun[i] && oc.done[i] == nil {
+			oc.open = append(oc.open, i)
 		}
 	}
+	if runErr != nil && !oc.stopped {
+		oc.stderr = errBuf.String() + "\n" + runErr.Error()
+	}
 
-	return done, open, errBuf.String() + "\n" + runErr.Error()
+	return oc
 }
 
-// runJobs executes all jobs in child processes, in chunks, and calls deliver for each job in order.  It stops early
-// (returning false) when deliver says so.
-func runJobs(dir string, jobs []job, chunk int, deliver func(j job, res *result) bool) {
+// runJobs executes all jobs in child processes, in chunks, and calls deliver for each job in order (skipped for a case
+// that was not executed because of the hang budget, see hang.go).  It stops early when deliver says so.
+func runJobs(dir string, jobs []job, chunk int, scale int, deliver func(j job, res *result) bool, skipped func(j job, why string)) {
+	pc := &parentCtl{env: hangEnv{Kinds: map[string]int{}, Scale: scale}, grace: time.Duration(48+12*scale) * time.Second}
+	pc.env.GraceMs = pc.grace.Milliseconds()
 	seq := 0
 	for pos := 0; pos < len(jobs); {
+		if pc.exhausted() {
+			for _, j := range jobs[pos:] {
+				skipped(j, "hang-budget")
+			}
+
+			return
+		}
 		end := min(pos+chunk, len(jobs))
 		part := jobs[pos:end]
 		results := make([]*result, len(part))
+		skip := make([]string, len(part))
 		todo := make([]int, len(part))
 		for i := range todo {
 			todo[i] = i
 		}
-		for len(todo) > 0 {
+		next, aborted := 0, false
+		// deliverPrefix hands over, in order, what is complete; false = the consumer has enough
+		deliverPrefix := func() bool {
+			for next < len(part) && !aborted {
+				switch {
+				case results[next] != nil:
+					if !deliver(part[next], results[next]) {
+						aborted = true
+					}
+				case skip[next] != "":
+					skipped(part[next], skip[next])
+				default:
+					return true
+				}
+				next++
+			}
+
+			return !aborted
+		}
+		for len(todo) > 0 && !aborted {
 			sub := make([]job, len(todo))
 			for k, i := range todo {
 				sub[k] = part[i]
 			}
+			cur := todo
 			seq++
-			done, open, stderr := runChild(dir, seq, sub)
-			for k, res := range done {
+			oc := runChild(dir, seq, sub, pc, func(o *childOutcome) bool {
+				for k, res := range o.done {
+					results[cur[k]] = res
+				}
+				for k, why := range o.skipped {
+					skip[cur[k]] = why
+				}
+
+				return !deliverPrefix()
+			})
+			for k, res := range oc.done {
 				results[todo[k]] = res
 			}
-			if stderr == "" {
+			for k, why := range oc.skipped {
+				skip[todo[k]] = why
+			}
+			if aborted {
+				break
+			}
+			if oc.stopped {
+				for _, i := range todo {
+					if results[i] == nil && skip[i] == "" {
+						skip[i] = "hang-budget"
+					}
+				}
+
+				break
+			}
+			if oc.stderr == "" {
 				break
 			}
 			// the child died: find the culprit among the cases that were running by running each alone
 			culprit := false
-			for _, k := range open {
+			for _, k := range oc.open {
 				seq++
-				d1, _, e1 := runChild(dir, seq, []job{sub[k]})
-				if e1 != "" {
-					results[todo[k]] = crashed(sub[k], e1, true)
+				o1 := runChild(dir, seq, []job{sub[k]}, pc, nil)
+				if o1.stderr != "" {
+					results[todo[k]] = crashed(sub[k], o1.stderr, true)
 					culprit = true
-				} else if d1[0] != nil {
-					results[todo[k]] = d1[0]
+				} else if o1.done[0] != nil {
+					results[todo[k]] = o1.done[0]
+				} else if o1.skipped[0] != "" || o1.stopped {
+					skip[todo[k]] = "hang-budget"
 				}
 			}
 			if !culprit {
-				if len(open) > 0 {
-					results[todo[open[0]]] = crashed(sub[open[0]], stderr, false)
+				if len(oc.open) > 0 {
+					results[todo[oc.open[0]]] = crashed(sub[oc.open[0]], oc.stderr, false)
 				} else if len(todo) > 0 {
-					results[todo[0]] = crashed(sub[0], stderr, false)
+					results[todo[0]] = crashed(sub[0], oc.stderr, false)
 				}
 			}
 			var rest []int
 			for _, i := range todo {
-				if results[i] == nil {
+				if results[i] == nil && skip[i] == "" {
 					rest = append(rest, i)
 				}
 			}
 			todo = rest
 		}
-		for i, res := range results {
-			if res == nil {
-				res = crashed(part[i], "no result delivered", false)
+		if aborted {
+			return
+		}
+		for i := range results {
+			if results[i] == nil && skip[i] == "" {
+				results[i] = crashed(part[i], "no result delivered", false)
 			}
-			if !deliver(part[i], res) {
-				return
-			}
+		}
+		if !deliverPrefix() {
+			return
 		}
 		pos = end
 	}
